@@ -7,6 +7,9 @@ import (
 	"os"
 	"sort"
 
+	"github.com/rs/zerolog"
+	"github.com/rs/zerolog/log"
+
 	"verif/harness/internal/core"
 )
 
@@ -26,6 +29,8 @@ func main() {
 	work := flag.String("work", "", "scratch directory (removed by the caller)")
 	replay := flag.String("replay", "", "replay file")
 	flag.Parse()
+	zerolog.SetGlobalLevel(zerolog.Disabled)
+	log.Logger = zerolog.Nop()
 	r, ok := registry[*prop]
 	if !ok {
 		ids := []string{}
